@@ -163,12 +163,14 @@ def tokenise(s):
                     return False, evs, texts, attrs
                 evs.append({"t": "close", "tag": tag})
             else:
-                m = re.fullmatch(r"([a-zA-Z][a-zA-Z0-9]*)((?:\s+[a-zA-Z_:][-a-zA-Z0-9_:.]*=\"[^\"<>]*\")*)\s*", body)
+                m = re.fullmatch(r"([a-zA-Z][a-zA-Z0-9]*)((?:\s+[a-zA-Z_:][-a-zA-Z0-9_:.]*(?:=(?:\"[^\"<>]*\"|'[^'<>]*'))?)*)\s*/?", body)
                 if not m:
                     return False, evs, texts, attrs
                 evs.append({"t": "open", "tag": m.group(1)})
-                for a in re.finditer(r"[a-zA-Z_:][-a-zA-Z0-9_:.]*=\"([^\"<>]*)\"", m.group(2)):
-                    attrs.append(a.group(1))
+                for a in re.finditer(r"[a-zA-Z_:][-a-zA-Z0-9_:.]*=(?:\"([^\"<>]*)\"|'([^'<>]*)')", m.group(2)):
+                    attrs.append(a.group(1) if a.group(1) is not None else a.group(2))
+                if body.rstrip().endswith("/"):
+                    evs.append({"t": "close", "tag": m.group(1)})     # self-closing element
             i = j + 1
         else:
             j = s.find("<", i)
@@ -237,7 +239,7 @@ def run(rep, tier, seed):
         raise tlc.MachineryError("leg A: MC_Tree violated on the shipped specification\n" + a["out"][-2500:])
     rng = random.Random(seed + 20)
     events, recipes = [], {}
-    for s in range(500 if tier == "quick" else 15000):
+    for s in range(1200 if tier == "quick" else 15000):
         try:
             schema = make_schema(rng)
             roots = [0] + list(range(1, len(schema.rules) + 1))
